@@ -291,6 +291,12 @@ func TestC04(t *testing.T) {
 					r := vlib.Rand(fmt.Sprintf("C04-%s-%s-%s", driver, ep.Method, style), round)
 					lw, err := authWorld(driver, round)
 					if err != nil {
+						// the session is built from reference-signed requests only
+						if strings.Contains(err.Error(), "failed to verify") {
+							ev.Case("setup/"+driver, true)
+							ev.Violate("valid-request-refused:session-setup", map[string]interface{}{"err": err.Error(), "note": "a request signed by the reference signer (method||JSON([identity,nonce,params...]), Keccak256) was refused"})
+							continue
+						}
 						t.Fatal(err)
 					}
 					w := lw.w
